@@ -206,6 +206,16 @@ def run_case(acc, seed, tag, d):
             c.app.entity_callbacks["presence"] = c.app.onPresence
             st["fired"] = True
             return
+        elif kind == "undecryptable-message":
+            # a message from B reaches A damaged in transit: the decryption fails inside the key manager; the library reports it to
+            # the SENDER (retry receipt), not to a caller on this side
+            from yowsup.layers.protocol_messages.protocolentities.attributes.attributes_message_meta import MessageMetaAttributes
+            mid_ = "C12BAD%s" % gen.s_from(r, gen.HEXU, 8)
+            W.server.faults[mid_] = {"corrupt": True}
+            W.script = list(W.script[:W.script_pos]) + [{"op": "send", "who": B, "kind": "text", "uid": "bad1",
+                                                         "build": lambda: TextMessageProtocolEntity("damaged on its way", message_meta_attributes=MessageMetaAttributes(id=mid_, recipient="%s@s.whatsapp.net" % A))}]
+            W.run(max_steps=W.steps + 4000)
+            res["undecryptable_injected"] = W.counters.get("fault_corrupt_injected", 0)
         elif kind == "truncated-compressed-frame":
             # a compressed frame whose deflate stream lacks its end (cut in transit before the connection's next frame): the
             # decoder cannot know the stanza is whole, it has to report it
@@ -314,6 +324,9 @@ def run_case(acc, seed, tag, d):
         if not critical:
             plan = [("send", "ping", False), ("recv", "ping", False), ("send", "presence", d["other_thread"]), ("recv", "notif", False),
                     ("send", "text", False), ("recv", "presence", False)]
+            if d["kind"] == "undecryptable-message":
+                # (an encrypted send from ANOTHER thread than the one that lived through the failed decryption comes first)
+                plan = [("send", "text", True), ("send", "text", False)] + plan
         else:
             plan = [("recv", "presence", False)] if d["direction"] == "send" else []
         for op, kind, thr in plan:
@@ -530,7 +543,7 @@ def run_case(acc, seed, tag, d):
 
 
 NATURALS = ["unencodable", "send-while-down", "undecodable-frame", "unknown-picture-notification", "app-callback-raises", "unknown-stream-error", "key-request-without-t",
-            "truncated-compressed-frame"]
+            "truncated-compressed-frame", "undecryptable-message"]
 
 
 def keyfetch_failure_case(acc, seed, tag, how):
